@@ -311,6 +311,7 @@ def historical(h):
             raise Exception(name)
 
     self = h.obj(HC, aggregates=["unit", "county_fips"])
+    h.default_replay = lambda ev: {"target": "verif_replays:historical_hidden_results_replay", "args": [], "check": "result['exc'] is None and result['ok']"}
     clo = h.method(self, "_format_historical_current_data")
     clo.env.overrides.update({"PreprocessedDataHandler": lambda *a, **k: PDH(), "s3": type("S3", (), {"S3CsvUtil": staticmethod(lambda b: None)})(), "TARGET_BUCKET": "b"})
     from pyvc.values import SymRaise
@@ -324,7 +325,7 @@ def historical(h):
         for e in ests:
             src = hist_dem if e == "dem" else hist_turnout
             c = out.col(f"results_{e}")
-            h.ensures(f"{'+'.join(ests)}.results_{e}_hidden_below_threshold", z3.Implies(rows, c.t == z3.If(pev >= thr.t, src, 0)))
+            h.ensures(f"{'+'.join(ests)}.results_{e}_hidden_below_threshold", z3.Implies(rows, c.t == z3.If(pev >= thr.t, src, 0)), replay=h.default_replay)
         if "turnout" not in ests:
             # results_turnout is passed along un-hidden (it feeds the weights): the model must not read it for units
             # below the threshold -- documented residual, checked by the bounded companion on real runs
